@@ -198,7 +198,7 @@ def v_open_entity():
                 self.w <<= self.y
                 self.v <<= self.y
 
-    class Open(Entity):
+    class OpenPorts(Entity):  # (`Open` is a reserved word: the design was emitted with inconsistent names until fix 53737f7)
         a = Port.input(Bit)
         o = Port.output(Bit)
 
@@ -206,7 +206,7 @@ def v_open_entity():
             # y, w and v stay unconnected: the connector declares signals for them
             std.ConnectedEntity[Sub](x=self.a, z=self.o)
 
-    return Open, {}
+    return OpenPorts, {}
 
 
 def v_commented():
